@@ -63,6 +63,9 @@ ParFrontThm == stage = "done" =>
                  /\ IsConsecutiveCoarsening(part, order)
                  /\ FullyRobust(C, part)
                  /\ \A c \in OptSet(C, U) : Respects(part, c)
+\* the decomposed optimum used by the trace specifications is equivalent to "some optimal consensus respects"
+PartOptThm == stage = "merge" =>
+                 ((\E c \in OptSet(C, U) : Respects(part, c)) <=> (PartOpt(C, part) = Opt(C, U)))
 \* the step machine and the recursive definition agree
 MachineIsDef == stage = "done" /\ BackTo = 1 => part = ParFront(C, order)
 \* every reachable merge state makes progress: 2*Len(part) - idx strictly decreases
